@@ -75,7 +75,7 @@ func (s *SignedLatency) OnPing(pingReqID uint32) error {
 	for _, v := range s.PingRequests {
 		latency := float32(v.End.Sub(v.Start).Microseconds())
 		latencies = append(latencies, latency)
-		if latency < min || min == 0 {
+		if latency < min || len(latencies) == 1 {
 			min = latency
 		}
 		if latency > max {
